@@ -24,6 +24,7 @@ CONSTANTS
     GrantPathOrder,  \* sequence of the clean paths that may carry a grant
     OptOrder,        \* sequence of the privilege sets a carrier may hold
     MaxGranted,      \* bound on the number of carriers of a table (non-admin user)
+    ChainOnly,       \* TRUE: only tables whose carriers are pairwise ancestor/descendant (a grant above/below another)
     AdminMaxGranted, \* the same for the admin user (the table is irrelevant for it)
     MaxSegs,         \* request resources have up to MaxSegs segments
     RelPathOrder,    \* sequence of relative (non-absolute) request resources
@@ -378,6 +379,7 @@ AddGrant(j, S) ==
     /\ (HttpOn => hcfg.auth /\ ~hcfg.pprof)    \* the other handler configurations are explored with the empty table only
     /\ Cardinality(DOMAIN tab) < (IF adm THEN AdminMaxGranted ELSE MaxGranted)
     /\ \A q \in DOMAIN tab : IndexIn(GrantPathOrder, q) < j
+    /\ (ChainOnly => \A q \in DOMAIN tab : IsPrefix(q, GrantPathOrder[j]))   \* GrantPathOrder lists ancestors first
     /\ Install(adm, (GrantPathOrder[j] :> S) @@ tab)
     /\ UNCHANGED <<hcfg, rq>>
 
